@@ -84,7 +84,10 @@ def gen_case(task, i):
             src = gen_text.mutate(src, r)
     elif st == "fixed":
         f = _fixed()
-        src = (HEADER if r.random() < 0.8 else "") + f[i % len(f)]
+        body = f[i % len(f)]
+        src = (HEADER if r.random() < 0.8 else "") + body
+        if body in gen_text.RECURSION:
+            return dict(src=HEADER + body, opts=opts, as_dict=as_dict, stream=st, must_be_error="recursion")
     elif st == "special":
         src = (HEADER if r.random() < 0.7 else "") + gen_text.special(r)
     elif st == "constexpr":
@@ -171,6 +174,11 @@ def check_case(case):
         p = shape_problems(res, texts, cnt)
         for x in p:
             vio.append(dict(signature=dict(monitor="return-shape", event=x["event"]), detail=x))
+    if case.get("must_be_error") and isinstance(res, dict) and "error" not in res:
+        cnt["recursion_accepted"] = 1
+        vio.append(dict(signature=dict(monitor="return-shape", event="recursive-program-not-reported-as-error"), detail=dict(kind=case["must_be_error"])))
+    elif case.get("must_be_error"):
+        cnt["recursion_rejected"] = 1
     trig = []
     for v in vio:
         v["triggers"] = trig
